@@ -1,4 +1,5 @@
 pub mod histories;
+pub mod process;
 pub mod project;
 pub mod script;
 pub mod session;
